@@ -252,6 +252,13 @@ def release_rules(ctx: Ctx, rid: str):
 
 
 
+def run_extra(ctx: Ctx):
+    # ---------------------------------------------------------------- R06.8 answers never come from state that outlives the question
+    from .common import process_state_rule
+    process_state_rule(ctx, "R06.8", [ctx.repo.func("Project.schedule")],
+                       "a reported start or end is computed from another task's or run's record")
+
+
 def run(ctx: Ctx):
     repo = ctx.repo
     ts_sched = repo.func("TaskScenario.schedule")
